@@ -52,6 +52,16 @@ func vhDirtyStore(s *Server, v bool) {
 	s.aofdirty.Store(v)
 }
 
+func vhDirtyCAS(s *Server, old, new bool) bool {
+	vgate("CompareAndSwap")
+	return s.aofdirty.CompareAndSwap(old, new)
+}
+
+func vhDirtySwap(s *Server, v bool) bool {
+	vgate("Swap")
+	return s.aofdirty.Swap(v)
+}
+
 func vhNativeServe(s *Server, conns []*vhConn) {
 	// hand the connections out in the order in which the schedule starts their threads
 	var ordered []*vhConn
